@@ -7,12 +7,14 @@ import (
 	"context"
 	"io"
 	"net"
+	"time"
 
 	"github.com/pion/stun/v3"
 )
 
 func init() {
 	verifRegister("verifC15HandleConn", verifC15HandleConn)
+	verifRegister("verifC15TwoPeers", verifC15TwoPeers)
 }
 
 type verifListener struct {
@@ -50,7 +52,7 @@ func verifFrame(b []byte) []byte {
 
 func verifC15HandleConn() {
 	lst := &verifListener{ch: make(chan net.Conn, 1), addr: &net.TCPAddr{IP: net.IPv4(10, 0, 0, 1).To4(), Port: 4000}}
-	m := NewTCPMuxDefault(TCPMuxParams{Listener: lst, Logger: verifNopLogger{}, ReadBufferSize: 8})
+	m := NewTCPMuxDefault(TCPMuxParams{Listener: lst, Logger: verifNopLogger{}, ReadBufferSize: 8, AliveDurationForConnFromStun: 400 * time.Millisecond})
 	localIP := net.IPv4(10, 0, 0, 1).To4()
 
 	// optionally the agent already asked for this ufrag's connection
@@ -161,11 +163,13 @@ func verifC15HandleConn() {
 
 	// provisional connections expire
 	if !(preRegistered && wantUfrag == "u0") {
-		if verifFireAfterFuncs() > 0 {
+		{
+			fired := verifFireAfterFuncs()
 			verifRunGoroutines()
 			verifReach("expired")
-			verifAssert(conn.closed >= 1, "expired-provisional-conn-closes-its-TCP-connection")
+			verifAssert(conn.closed >= 1, "provisional-conn-expires-and-closes-its-TCP-connection")
 			verifAssert(len(m.connsIPv4[wantUfrag]) == 0, "expired-provisional-conn-is-removed")
+			verifAssert(fired != 0, "the-expiry-was-armed")
 			return
 		}
 	}
@@ -177,6 +181,53 @@ func verifC15HandleConn() {
 	verifAssert(len(m.connsIPv4) == 0, "mux-close-forgets-every-packet-conn")
 	_, gerr := m.GetConnByUfrag("u0", false, localIP)
 	verifAssert(gerr == io.ErrClosedPipe, "closed-mux-hands-out-nothing")
+	verifReach("done")
+}
+
+// Two connections naming the same ufrag nobody registered: the provisional
+// packet conn still expires (taking both TCP connections with it) unless the
+// agent claims the ufrag in the meantime.
+func verifC15TwoPeers() {
+	lst := &verifListener{ch: make(chan net.Conn, 1), addr: &net.TCPAddr{IP: net.IPv4(10, 0, 0, 1).To4(), Port: 4000}}
+	m := NewTCPMuxDefault(TCPMuxParams{Listener: lst, Logger: verifNopLogger{}, ReadBufferSize: 8, AliveDurationForConnFromStun: 400 * time.Millisecond})
+	localIP := net.IPv4(10, 0, 0, 1).To4()
+	mk := func(i int) *verifTCPConn {
+		msg, err := stun.Build(stun.BindingRequest, stun.NewTransactionIDSetter(verifTxID()), stun.NewUsername("zz:peer"), PriorityAttr(verifU32()))
+		verifAssert(err == nil, "build")
+		conn := &verifTCPConn{localTCP: &net.TCPAddr{IP: localIP, Port: 4000}}
+		conn.data, conn.failAt, conn.partial = verifFrame(msg.Raw), -1, 0
+		conn.remote = &net.TCPAddr{IP: net.IPv4(20, 0, 0, byte(7+i)).To4(), Port: 7007 + i}
+		conn.hold = make(chan struct{})
+		return conn
+	}
+	c1, c2 := mk(0), mk(1)
+	m.handleConn(c1)
+	verifRunGoroutines()
+	m.handleConn(c2)
+	verifRunGoroutines()
+	byIP := m.connsIPv4["zz"]
+	verifAssert(len(byIP) == 1, "one-provisional-packet-conn-for-the-ufrag")
+	pc := byIP[ipAddr(localIP.String())]
+	verifAssert(pc != nil && len(pc.conns) == 2 && c1.closed == 0 && c2.closed == 0, "both-connections-attached-to-it")
+	if pc == nil {
+		return
+	}
+	claimed := verifChoice(2) == 1
+	if claimed {
+		h, err := m.GetConnByUfrag("zz", false, localIP)
+		verifAssert(err == nil && verifUnderlyingTCP(h) == pc, "the-agent-gets-the-provisional-conn")
+		verifReach("claimed")
+	}
+	fired := verifFireAfterFuncs()
+	verifRunGoroutines()
+	if claimed {
+		verifAssert(fired <= 0 && c1.closed == 0 && c2.closed == 0 && len(m.connsIPv4["zz"]) == 1, "claimed-conn-does-not-expire")
+	} else {
+		verifReach("expired")
+		verifAssert(c1.closed >= 1 && c2.closed >= 1, "unclaimed-provisional-conn-expires-and-closes-every-attached-TCP-connection(second-connection-included)")
+		verifAssert(len(m.connsIPv4["zz"]) == 0, "expired-provisional-conn-is-removed")
+		verifAssert(fired != 0, "the-expiry-was-armed")
+	}
 	verifReach("done")
 }
 
